@@ -573,7 +573,7 @@ def make_semiring(fggs, name, dtype=None):
 
 def build_fgg(fggs, spec, semiring='real', dtype=None, *, explicit_ids=False, rule_order=None,
               node_orders=None, edge_orders=None, rename=None, domain_kind='range', domain_values=None,
-              value_perm=None, weight_builder=None, requires_grad=False, nt_decl_first=False):
+              value_perm=None, weight_builder=None, requires_grad=False, nt_decl_first=False, ghost_rng=None):
     """Realise a spec through the public API.
 
     rename:       dict old name -> new name for node labels / edge labels (consistent renaming)
@@ -618,8 +618,28 @@ def build_fgg(fggs, spec, semiring='real', dtype=None, *, explicit_ids=False, ru
             g.add_edge(e)
             edge_objs[ri, ei] = e
         g.ext = [nodes[v] for v in r['ext']]
+        ghost_after = None
+        if ghost_rng is not None and ghost_rng.random() < 0.6:
+            # history that leaves no trace in the rule: an edge added and removed again, or a label
+            # registered on the right-hand side without any edge carrying it
+            cands = [n for n in spec['nonterminals'] if all(any(r['nodes'][v] == l for v in nodes) for l in spec['nonterminals'][n])]
+            if cands:
+                gn = ghost_rng.choice(cands)
+                att = [ghost_rng.choice([nodes[v] for v in nodes if r['nodes'][v] == l]) for l in spec['nonterminals'][gn]]
+                ghost = fggs.Edge(el[gn], att)
+                mode = ghost_rng.choice(['before', 'after', 'label-only'])
+                if mode == 'before':
+                    g.add_edge(ghost)
+                    g.remove_edge(ghost)
+                elif mode == 'label-only':
+                    g.add_edge_label(el[gn])
+                else:
+                    ghost_after = ghost
         rule = fggs.HRGRule(el[r['lhs']], g)
         fgg.add_rule(rule)
+        if ghost_after is not None:
+            g.add_edge(ghost_after)
+            g.remove_edge(ghost_after)
         rule_objs[ri] = rule
         node_objs[ri] = nodes
     # nonterminals without rules / never mentioned must still be registered
